@@ -113,7 +113,9 @@ def _history(rng, proto, nops, nsess):
             ops.append("done:%d" % t)
         else:
             c = "crash:" + rng.choice("pe")
-            if store and rng.random() < 0.15:
+            if live and rng.random() < 0.2:
+                c = "relstop:%d:%s:%s" % (rng.choice(live), rng.choice("pe"), rng.choice("dn"))
+            elif store and rng.random() < 0.15:
                 c += ":%d" % rng.choice(sorted(store))
             ops.append(c)
             pend = [(tick + k, i) for k, i in enumerate(sorted(store))]
@@ -176,6 +178,13 @@ def _structured(proto):
         [n(0), "ck:0", "poison:0", "cks:0", "done:0", "crash:p"],
         [n(0), "ck:0", "done:0", "cksf:0", "crash:p", "cksf:0", "rel:0", "crash:p"],
         [n(0), "cksf:0", "crash:p", n(1)],
+        # stop in the middle of a release: Put applied / not applied, Delete not yet
+        [n(0), "ck:0", "relstop:0:p:d"],
+        [n(0), "ck:0", "relstop:0:p:n", n(1)],
+        [n(0), "ck:0", "done:0", "relstop:0:e:n", n(1)],
+        [n(0), "ck:0", "done:0", "ck2:0", "relstop:0:p:d", "done:3"],
+        [n(0), n(1), "ck:0", "ck:1", "done:1", "relstop:0:p:d", "rel:0", "crash:p"],
+        [n(0), "cks:0", "ck:0", "poison:1", "relstop:0:e:d"],
         # release whose checkpoint Delete fails with a transient Store error
         [n(0), "cks:0", "relf:0", "crash:p"],
         [n(0), "ck:0", "done:0", "relf:0", "crash:e", n(1)],
@@ -235,7 +244,7 @@ def gen_cases(rng, tier, budget):
         for h in _structured(proto):
             for cfg in ("4 4 1", "2 2 1"):
                 cases.append("%s %s %s" % (proto, cfg, " ".join(h)))
-    n = budget or (2000 if tier == "quick" else 12000)
+    n = budget or (1800 if tier == "quick" else 12000)
     for k in range(n):
         proto = "ipoe" if k % 2 == 0 else "pppoe"
         n4, n6, kpd = rng.choice([2, 3, 4, 6]), rng.choice([2, 3, 4]), rng.choice([1, 2])
@@ -284,7 +293,7 @@ def _monitor(case, impl):
         if (a[0] in ("rel", "relf") and s.startswith("rel")) or (a[0] == "ckrel" and s.startswith("ckrel")):
             released.add(int(a[1]))
             live.pop(int(a[1]), None)
-        elif a[0] == "crash":
+        elif a[0] in ("crash", "relstop"):
             live = _sessions(_field(s, "live"))
             back = sorted(released & set(live))
             if back:
@@ -329,7 +338,7 @@ def classify(case, impl, model):
     ops = case.split()[4:] + ["final"]
     for k, (x, y) in enumerate(zip(si, sm)):
         if x != y:
-            if ops[min(k, len(ops) - 1)].startswith("crash"):
+            if ops[min(k, len(ops) - 1)].startswith(("crash", "relstop")):
                 li, lm = _sessions(_field(x, "live")), _sessions(_field(y, "live"))
                 miss = sorted(set(lm) - set(li))
                 if miss:
@@ -407,7 +416,7 @@ def distribution(cases, impl):
         for op in t[4:]:
             k = op.split(":")[0]
             d["ops"][k] = d["ops"].get(k, 0) + 1
-            nc += k == "crash"
+            nc += k in ("crash", "relstop")
         d["crashes"] += nc
         d["cases_with_2plus_crashes"] += nc >= 2
         o = o or ""
